@@ -169,6 +169,26 @@ def exactness_check(pid: str, part: str) -> int:
         if res:
             ck.sample({"dialect": d, "sql": res[0]["rec"]["sql"], "result": res[0].get("summary")})
 
+    # ---- configuration and spelling dimensions on ansi: a default schema in force; the kinds of JOIN keyword -----------
+    sub = stmts[: (120 if quick else 1500)]
+    for label, recs_v, spec_v in (
+            ("default-schema", [dict(x, config={"DEFAULT_SCHEMA": "dflt"}) for x in records(sub)], spec_strings(sub, ds="dflt")),
+            ("join-kinds", records(sub, opts=astgen.Opts(joins="mixed")), spec[: len(sub)])):
+        for i, (x, sp) in enumerate(zip(run(recs_v), spec_v)):
+            ck.count()
+            if "skip" in x:
+                continue
+            dist[label] = dist.get(label, 0) + 1
+            case = {"suite": "T3-" + label, "dialect": "ansi", "sql": x["rec"]["sql"], "config": x["rec"].get("config"), "ast": astgen.g_stmt(sub[i])}
+            got = x["impl"] if x["impl"].startswith("ERR") else (tables_part(x["summary"]) if part == "tables" else x["summary"])
+            want = tables_part(sp) if part == "tables" else sp
+            if got != want:
+                case.update(impl=got, spec=want)
+                spec_failures.append(case)
+            elif x["impl"] != x.get("model") and part != "tables":
+                case.update(impl=x["impl"][:3000], model=x.get("model", "")[:3000])
+                disagreements.append(case)
+
     # ---- WITH RECURSIVE: table level only (specification Ast/SpecRec.v) ---------------------------------
     if part == "tables":
         rec = [astgen.gen_recursive(r) for _ in range(40 if quick else 600)]
